@@ -131,3 +131,57 @@ def drop_block_parameters_index(data, rng):
     if not n:
         return data, 0
     return cborgen.encode(top), n
+
+
+def _node_uint(v):
+    n = cborgen.Node(0); n.arg = v; n.width = None
+    return n
+
+
+def insert_empty_blocks(data, rng):
+    """-> (bytes, number inserted): blocks that hold a preamble and nothing else (legal; the library's exporter never writes one)"""
+    top, _ = cborgen.parse(data)
+    if top.major != 4 or len(top.children) != 3 or not top.children[2].children:
+        return data, 0
+    blocks = top.children[2].children
+    empty, _ = cborgen.parse(bytes.fromhex("a100a20082000001" + "00"))
+    n = 0
+    for _ in range(rng.randrange(1, 3)):
+        blocks.insert(rng.randrange(len(blocks) + 1), copy.deepcopy(empty))
+        n += 1
+    return cborgen.encode(top), n
+
+
+def twin_tick_rate(data, rng):
+    """-> bytes or None: the same file with another ticks-per-second in its first parameter set (everything else equal)"""
+    top, _ = cborgen.parse(data)
+    if top.major != 4 or len(top.children) != 3:
+        return None
+    bps = mget(top.children[1], 3)
+    if bps is None or not bps.children:
+        return None
+    tps = mget(mget(bps.children[0], 0), 0)
+    if tps is None or tps.major != 0:
+        return None
+    tps.arg = {1000000: 1000000000, 1000000000: 1000, 1000: 1000000}.get(tps.arg, 1000000 if tps.arg != 1000000 else 1000)
+    tps.width = None
+    return cborgen.encode(top)
+
+
+def twin_collection(data, rng):
+    """-> bytes or None: the same file whose first parameter set gains or loses its collection parameters"""
+    top, _ = cborgen.parse(data)
+    if top.major != 4 or len(top.children) != 3:
+        return None
+    bps = mget(top.children[1], 3)
+    if bps is None or not bps.children or bps.children[0].major != 5 or bps.children[0].indef:
+        return None
+    bp = bps.children[0]
+    ch = bp.children
+    for i in range(0, len(ch) - 1, 2):
+        if _key(ch[i]) == 1:
+            del ch[i:i + 2]
+            return cborgen.encode(top)
+    coll, _ = cborgen.parse(bytes.fromhex("a109" + "64686f7374"))      # {host_id: "host"}
+    ch += [_node_uint(1), coll]
+    return cborgen.encode(top)
